@@ -51,7 +51,7 @@ CONFIG = {'gen': ['SmbCommands'],
                'the recorded 43-byte window, NegotiateRequest — Dialects reads to the end of its input —, NegotiateResponse — '
                'null-terminated strings —, RenameRequest — unchecked decode —, WriteRequest) the round trip is decided by the '
                'correspondence runs only. slot_locality reads the layout through layoutZ (literal terminator bytes in the data block '
-               'passed over), 205 command/field pairs.',
+               'passed over, a range loop over an integer array one slot of variable width), 224 command/field pairs.',
  'level_note': 'Trusted: Lean kernel; axioms propext, Classical.choice, Quot.sound; the extractor and the IR semantics are tied to the Go '
                'code by differential testing (bounded); C06 models of nested types; known findings are recognised by Lean predicates on '
                'the extracted programs, one key per command.'}
